@@ -2,6 +2,7 @@ package sql
 
 import (
 	"fmt"
+	"go/constant"
 	"regexp"
 	"strings"
 
@@ -203,9 +204,11 @@ func enumTuple(e *an.Enum) string {
 	chunks := make([]string, len(e.Members))
 	for i, val := range e.Members {
 		chunks[i] = val.Const.Val().ExactString()
+		if v := val.Const.Val(); v.Kind() == constant.String { // SQL uses single quote
+			chunks[i] = "'" + strings.ReplaceAll(constant.StringVal(v), "'", "''") + "'"
+		}
 	}
-	out := fmt.Sprintf("(%s)", strings.Join(chunks, ", "))
-	return strings.ReplaceAll(out, `"`, `'`) // SQL uses single quote
+	return fmt.Sprintf("(%s)", strings.Join(chunks, ", "))
 }
 
 func compositeDecl(cp sql.Composite) string {
